@@ -42,7 +42,7 @@ func genCase(t *rapid.T) Case {
 			b = lite.Behaviour{Kind: lite.BehDelay, DelayUs: rapid.IntRange(0, 400).Draw(t, "us")}
 		}
 		if faulty && rapid.IntRange(0, 1).Draw(t, "fail") == 0 {
-			b = lite.Behaviour{Kind: rapid.SampledFrom([]int{lite.BehError, lite.BehHang}).Draw(t, "failkind")}
+			b = lite.Behaviour{Kind: rapid.SampledFrom([]int{lite.BehError, lite.BehHang, lite.BehNoClient}).Draw(t, "failkind")}
 		}
 		c.Beh = append(c.Beh, b)
 	}
@@ -58,7 +58,13 @@ func seq(n int) []int {
 }
 
 func check(c Case, o *pbt.Obs) *pbt.Failure {
-	cl := lite.New(c.Nodes, 2, 0, c.Placement)
+	var unreachable []int
+	for i, b := range c.Beh {
+		if b.Kind == lite.BehNoClient && i != c.Asker {
+			unreachable = append(unreachable, i)
+		}
+	}
+	cl := lite.New(c.Nodes, 2, 0, c.Placement, unreachable...)
 	defer cl.Close()
 	// populate: every replica of partition p holds the same Sizes[p] items
 	wantLen, wantBytes := uint64(0), uint64(0)
@@ -83,7 +89,7 @@ func check(c Case, o *pbt.Obs) *pbt.Failure {
 	anyFaulty := false
 	for i, b := range c.Beh {
 		cl.Beh[lite.NodeID(i)] = b
-		if b.Kind == lite.BehError || b.Kind == lite.BehHang {
+		if b.Kind == lite.BehError || b.Kind == lite.BehHang || b.Kind == lite.BehNoClient {
 			anyFaulty = true
 		}
 	}
@@ -134,32 +140,12 @@ func check(c Case, o *pbt.Obs) *pbt.Failure {
 	}
 	desc := fmt.Sprintf("nodes=%d placement=%v sizes=%v asker=%d beh=%v", c.Nodes, c.Placement, c.Sizes, c.Asker, c.Beh)
 	if err == nil {
-		if failed > 0 {
-			return pbt.Failf("C17:success-despite-failed-lookup", "%s: SizeInfo returned (%d,%d,nil) although %d partition lookups failed", desc, l, b, failed)
-		}
+		// success: exact sums, whatever happened on the way (fail-over to another replica would be legitimate)
 		if l != wantLen || b != wantBytes {
 			return pbt.Failf("C17:wrong-sum", "%s: SizeInfo=(%d items,%d bytes), sum over partitions is (%d,%d); lookups=%s", desc, l, b, wantLen, wantBytes, renderCalls(calls))
 		}
-		// every non-local partition exactly once, on one of its replicas
-		count := map[string]int{}
-		for _, call := range calls {
-			count[call.Partition.String()]++
-		}
-		for p, nodes := range c.Placement {
-			pid := cl.Nodes[0].Dataset.VerifPartitionId(p)
-			local := false
-			for _, n := range nodes {
-				if n == c.Asker {
-					local = true
-				}
-			}
-			want := 1
-			if local {
-				want = 0
-			}
-			if count[pid.String()] != want {
-				return pbt.Failf("C17:lookup-count", "%s: partition %d looked up %d times remotely, expected %d; lookups=%s", desc, p, count[pid.String()], want, renderCalls(calls))
-			}
+		if failed > 0 {
+			o.Label("success-after-failed-lookup")
 		}
 	} else if err == context.DeadlineExceeded && failed == 0 {
 		// the harness deadline fired although nothing failed (slow machine): inconclusive, never a violation
@@ -169,7 +155,7 @@ func check(c Case, o *pbt.Obs) *pbt.Failure {
 		if !anyFaulty {
 			return pbt.Failf("C17:spurious-error", "%s: SizeInfo failed with %v although every node answers; lookups=%s", desc, err, renderCalls(calls))
 		}
-		if failed == 0 && remote > 0 {
+		if failed == 0 && remote > 0 && len(unreachable) == 0 {
 			// an error although no consulted lookup failed
 			return pbt.Failf("C17:spurious-error", "%s: SizeInfo failed with %v but no consulted lookup failed; lookups=%s", desc, err, renderCalls(calls))
 		}
@@ -205,7 +191,7 @@ func renderCalls(cs []*lite.InfoCall) string {
 func TestSizeInfo(t *testing.T) {
 	pbt.Run(t, pbt.Prop[Case]{
 		ID: "C17", Name: "TestSizeInfo",
-		Rule: "rapid-generated layer-B0 clusters (1-4 simulated nodes with the repository's Dataset objects, 1-8 partitions with generated replica sets, 0-9 items per partition, generated asking node, per-node PartitionInfo behaviour ok/delay/error/hang via in-memory DataManager client shims that call the real server); oracle: on success (len,bytes) equal the sums over partitions of the harness-known sizes, every non-local partition was looked up exactly once on one of its replicas, and no consulted lookup had failed; on a failed consulted lookup the call errors; non-trivial = >=2 partitions remote to the asking node; distinct = distinct case JSON",
+		Rule: "rapid-generated layer-B0 clusters (1-4 simulated nodes with the repository's Dataset objects, 1-8 partitions with generated replica sets, 0-9 items per partition, generated asking node, per-node PartitionInfo behaviour ok/delay/error/hang via in-memory DataManager client shims that call the real server); oracle: on success (len,bytes) equal the sums over partitions of the harness-known sizes, whatever lookups happened; an error is accepted only if some consulted lookup failed or some peer is unreachable (no client, no address); non-trivial = >=2 partitions remote to the asking node; distinct = distinct case JSON",
 		Gen:   genCase,
 		Check: check,
 	})
